@@ -47,6 +47,12 @@ CliChecks(e) ==
      \cup Flag(c.cause \in {"non_utf8_password", "wrong_password"} => e.exit = 1, "C15_tool_works_under_a_password_other_than_the_one_given")
      \* C17 at the tool: an entry whose checksum does not match is not a usable key, so it names nobody
      \cup Flag((c.cmd = "decrypt" /\ c.sender = "badsum" /\ e.exit = 0) => e.named = "unknown", "C17_entry_with_bad_checksum_used_to_name_the_sender")
+     \* C17 at the tool: a well-formed keyring of any size is taken whole (every entry found, wherever it stands), and a
+     \* keyring that repeats a name is refused, wherever the repetition stands
+     \cup Flag((c.cmd \in {"encrypt", "decrypt"} /\ c.cause = "none") => e.exit = 0, "C17_tool_refuses_or_loses_part_of_a_well_formed_keyring")
+     \cup Flag((c.cmd = "decrypt" /\ c.cause = "none" /\ c.sender \in {"first", "last"} /\ e.exit = 0) => e.named = "name",
+                "C17_tool_does_not_find_an_entry_of_the_keyring")
+     \cup Flag((c.cmd \in {"encrypt", "decrypt"} /\ c.cause = "malformed_keyring") => e.exit = 1, "C17_tool_accepts_a_keyring_it_must_refuse")
      \* C05 at the tool: the file is made for the key the NAME given stands for (opened by the specification with that key)
      \cup Flag((c.cmd = "encrypt" /\ c.cause = "none") => e.out = "full", "C05_tool_encrypted_to_or_from_another_key_than_the_named_one")
      \* C05 at the tool: whoever is reported is the holder of the authenticated key, never another keyring entry
@@ -70,7 +76,8 @@ GenChecks(e) ==
 
 \* C16: one step of a key life-cycle history
 LifeChecks(e) ==
-  Flag(e.exit = 0, "C16_command_failed")
+  \* (a password that is not UTF-8 may be refused: the step then changes nothing)
+  Flag(e.exit = 0 \/ e.refusable, "C16_command_failed")
   \cup Flag(e.identity_kept, "C16_private_key_changed_or_lost")
   \cup Flag(e.old_passwords_dead, "C16_earlier_password_still_works")
   \cup Flag(e.salt_fresh, "C16_salt_reused")
